@@ -236,13 +236,36 @@ PAIRS14 = [
  ("G20", "rust-sdk/core liquidity quotes (by liquidity, by token A, by token B) x prices at or outside the range bounds x slippage"),
 ]
 
+PAIRS15 = [
+ ("H01", "increase_liquidity_by_token_amounts_v2 (liquidity estimated from token maxima and price bounds) x Token-2022 transfer-fee mints x a pool price at or next to a bound of the position's range"),
+ ("H02", "first deposits that INITIALISE ticks in dynamic tick arrays (account grows, rent is topped up) x increase_liquidity_by_token_amounts_v2 / increase_liquidity_v2 x positions whose two bounds sit in different arrays"),
+ ("H03", "reposition_liquidity_v2 x dynamic tick arrays (the old range's arrays may shrink, the new range's arrays may grow, rent moves between position and arrays in one instruction)"),
+ ("H04", "reposition_liquidity_v2 / reset_position_range x bundled positions and Token-2022 position NFTs (authority, token account encoding, what the instruction may assume about the position)"),
+ ("H05", "reset_position_range x positions with history (non-zero checkpoints, fees or rewards owed and then collected, liquidity withdrawn) x re-deposit into the new range"),
+ ("H06", "two-hop swaps x adaptive-fee pools on BOTH legs (two oracles, one timestamp, per-leg fee state) x v1 / v2"),
+ ("H07", "swaps x reward accrual (every swap advances the reward growth with the liquidity that was in range before it) x zero-liquidity gaps and price bounds"),
+ ("H08", "the protocol fee share x adaptive fees (the protocol's cut of the adaptive part of the fee) x fee-rate changes"),
+ ("H09", "the trade-enable timestamp of adaptive-fee pools x the instructions that are NOT swaps (liquidity, collects, fee setters) x the first swap after opening"),
+ ("H10", "Token-2022 transfer-fee SCHEDULES (older / newer fee, epoch boundary) x swap_v2 and two_hop_swap_v2 x exact-out mode"),
+ ("H11", "legacy (v1) instructions x pools or positions that need the v2 / token-extension variants (Token-2022 mints, Token-2022 position NFTs): what must be refused, and what must work alike"),
+ ("H12", "rust-sdk/core swap quotes x full-range-only pools (two tick arrays span every price) x the protocol price bounds"),
+ ("H13", "rust-sdk/core increase_liquidity_quote_a / _b (liquidity from one token amount) x Token-2022 transfer fees x slippage"),
+ ("H14", "rust-sdk/core tick and price helpers (initializable tick index, full-range bounds, tick <-> price, is-tick-in-bounds) x extreme tick spacings"),
+ ("H15", "reward authorities (per-reward authority, emissions super authority, changes of either) x running emissions x collects"),
+ ("H16", "config feature flags and pool control flags (token-extensions positions required, non-transferable positions) x the open_position* variants"),
+ ("H17", "lamports and rent x dynamic tick arrays x the position lifecycle (the position account carries rent for the ticks it initialised; open, deposit, withdraw, reset, close)"),
+ ("H18", "swap_v2 supplemental tick arrays x dynamic / un-initialised arrays x adaptive-fee tick-group skipping over empty arrays"),
+ ("H19", "adaptive fees x the MIN / MAX ends of the price range (core tick-group range clamped at the bounds, swaps that end on the price bound)"),
+ ("H20", "liquidity instructions executed while the pool price sits EXACTLY on an initialised tick (both the normal and the shifted state after a downward crossing) x dynamic tick arrays"),
+]
+
 def main14(tag, outdir):
     os.makedirs(outdir, exist_ok=True)
     root = os.path.dirname(os.path.dirname(os.path.abspath(__file__)))
     brief = open(os.path.join(root, "notes/SEED_BRIEF.md")).read().split("\n---\n", 1)[1]
     props = [json.loads(l) for l in open(os.path.join(root, "properties.jsonl"))]
     plist = "\n".join(f"* {p['id']} — {p['title']}. {p['statement']}" for p in props)
-    for aid, pair in PAIRS14:
+    for aid, pair in (PAIRS15 if tag.startswith('seed15') else PAIRS14):
         d = f"/tmp/{tag}_{aid}"
         text = ("This time you are not given one property but an INTERACTION of features. The repository is expected to satisfy all of the "
                 "following properties (each must hold for every input, history and configuration):\n\n" + plist +
@@ -261,7 +284,7 @@ def main14(tag, outdir):
 
 def main():
     tag, outdir = sys.argv[1], sys.argv[2]
-    if tag.startswith("seed14"):
+    if tag.startswith("seed14") or tag.startswith("seed15"):
         return main14(tag, outdir)
     if tag.startswith("seed13"):
         return main13(tag, outdir)
